@@ -67,11 +67,12 @@ def reset_lib_memos():
     import types
     n = 0
     seen = set()
+    seen_fn = set()
     for m in _lib_modules():
         for k, f in list(vars(m).items()):
-            if id(f) in seen:
+            if id(f) in seen_fn:
                 continue
-            seen.add(id(f))
+            seen_fn.add(id(f))
             if not callable(f) or isinstance(f, type):
                 continue
             if getattr(f, "__module__", None) is None or \
